@@ -384,3 +384,74 @@ func checkC12Twin(c C12Twin) h.Outcome {
 }
 
 func TestC12_PTwin(t *testing.T) { h.RunProp(t, "C12.twin", genC12Twin, checkC12Twin) }
+
+// ---- bomb inside an EncryptedAssertion: the decrypted plaintext goes through the same bounded inflate ----
+
+type C12Enc struct {
+	Limit int64  `json:"limit"`
+	Size  int64  `json:"size"`
+	Alg   string `json:"alg"`
+	Level int    `json:"level"`
+}
+
+func checkC12Enc(c C12Enc) h.Outcome {
+	o := h.Outcome{NonTrivial: true, Classes: []string{"payload:encrypted-bomb", fmt.Sprintf("limit:%d", c.Limit), "alg:" + shortAlg(c.Alg)}}
+	L := effLimit(c.Limit)
+	spc := h.BaseSP()
+	spc.MaxSize = c.Limit
+	spc.Enc = h.KeyCfg{Mode: "tls", Field: h.CertRef{Key: "E1", Window: "wide"}}
+	plain := h.Deflate(bytes.Repeat([]byte{'A'}, int(c.Size)), c.Level)
+	ivn := 16
+	if h.IsGCM(c.Alg) {
+		ivn = 12
+	}
+	e := &h.EncSpec{DataAlg: c.Alg, Transport: h.Transports[0], Digest: "-", To: h.CertRef{Key: "E1", Window: "wide"}, Key: make([]byte, h.KeyLen(c.Alg)), IV: make([]byte, ivn)}
+	g := gridGenuine(spc, 1, "none")
+	root, _ := g.Tree()
+	ea, err := e.EncryptElement(plain, g.NS)
+	if err != nil {
+		o.Violation = h.V("harness/encrypt", "%v", err)
+		return o
+	}
+	a := h.AssertionElements(root)[0]
+	idx := a.Index()
+	root.RemoveChildAt(idx)
+	root.InsertChildAt(idx, ea)
+	in := h.Encode(h.Serialize(root, h.Layout{}), h.Presentation{})
+	for _, name := range []string{"ValidateEncodedResponse", "RetrieveAssertionInfo"} {
+		sp := spc.Build()
+		var ms0, ms1 runtime.MemStats
+		runtime.ReadMemStats(&ms0)
+		var err error
+		if name == "ValidateEncodedResponse" {
+			_, err = sp.ValidateEncodedResponse(in)
+		} else {
+			_, err = sp.RetrieveAssertionInfo(in)
+		}
+		runtime.ReadMemStats(&ms1)
+		alloc := int64(ms1.TotalAlloc - ms0.TotalAlloc)
+		if err == nil {
+			o.Violation = h.V("over-limit-accepted/encrypted/"+name, "accepted an encrypted assertion whose plaintext inflates to %d bytes (limit %d)", c.Size, L)
+			return o
+		}
+		// the decryption path legitimately copies its INPUT several times (base64, etree, detach, unmarshal,
+		// decrypt), so the bound is proportional to the input, with a larger factor than for plain messages;
+		// materialising the expansion would overshoot it by an order of magnitude
+		bound := 32*maxI64(L, int64(len(in))) + 8<<20
+		if c.Size >= 64*L && c.Size > 3*bound && alloc > bound {
+			o.Violation = h.V("unbounded-inflation/encrypted/"+name, "%s allocated %d bytes while handling an encrypted assertion whose plaintext inflates to %d bytes (limit %d, bound %d)", name, alloc, c.Size, L, bound)
+			return o
+		}
+	}
+	return o
+}
+
+func TestC12_PEncBomb(t *testing.T) {
+	h.RunProp(t, "C12.enc", func(t *rapid.T) C12Enc {
+		size := int64(32 << 20)
+		if h.Thorough() {
+			size = 256 << 20
+		}
+		return C12Enc{Limit: rapid.SampledFrom([]int64{64, 1024, 8 * 1024, 64 * 1024}).Draw(t, "limit"), Size: size, Alg: rapid.SampledFrom(h.DataAlgs).Draw(t, "alg"), Level: rapid.IntRange(1, 9).Draw(t, "level")}
+	}, checkC12Enc)
+}
